@@ -235,9 +235,25 @@ def check(pid, tier, seed):
             lines.append('UNDECIDED %s: solver %s (%s)' % (n, by[n]['status'], by[n].get('reason')))
     # bounded stand-ins (labelled; never counted as proved)
     bounded = []
+    import signal
+
+    class _Timeout(Exception):
+        pass
+
+    def _alarm(signum, frame):
+        raise _Timeout()
+    signal.signal(signal.SIGALRM, _alarm)
     for b in getattr(mod, 'BOUNDED', []):
         try:
-            res = b(tier, seed)
+            signal.alarm(int(os.environ.get('PYVC_BOUNDED_TIMEOUT', '300')))
+            try:
+                res = b(tier, seed)
+            finally:
+                signal.alarm(0)
+        except _Timeout:
+            res = {'name': getattr(b, '__name__', str(b)), 'label': 'bounded', 'cases': 0, 'bound': 'timed out',
+                   'failures': [{'key': 'timeout', 'input': getattr(b, '__name__', str(b)), 'observed': 'the bounded stand-in did not finish within its time budget (non-termination / lost laziness?)',
+                                 'expected': 'termination', 'replay_code': None}]}
         except Exception as e:
             lines.append('CHECKER-ERROR: bounded stand-in %s crashed: %r' % (getattr(b, '__name__', b), e))
             traceback.print_exc()
@@ -262,7 +278,13 @@ def check(pid, tier, seed):
         if not hasattr(finder, 'run'):
             continue
         try:
-            ncases, w = finder.run()
+            signal.alarm(int(os.environ.get('PYVC_BOUNDED_TIMEOUT', '300')))
+            try:
+                ncases, w = finder.run()
+            finally:
+                signal.alarm(0)
+        except _Timeout:
+            ncases, w = 0, {'key': 'timeout', 'input': prefix, 'observed': 'differential replay did not finish within its time budget', 'expected': 'termination', 'replay_code': None}
         except Exception as e:
             lines.append('CHECKER-ERROR: differential replay %s crashed: %r' % (prefix, e))
             exit_code = max(exit_code, 3)
